@@ -180,7 +180,8 @@ func (e *Engine) callStatic(st *State, fn *ssa.Function, args []Val, bindings []
 	}
 	ct := e.contractOf(fn)
 	isTop := len(st.Frames) > 0 && st.Frames[0].Fn == fn
-	if ct != nil && (!ct.Inline || isTop) && !(e.cur != nil && e.cur.Fn == fn && len(st.Frames) == 0) {
+	forceInline := len(st.Frames) > 0 && st.Frames[0].Contract != nil && st.Frames[0].Contract.Inlines[FuncKey(fn)] && !isTop
+	if ct != nil && !forceInline && (!ct.Inline || isTop) && !(e.cur != nil && e.cur.Fn == fn && len(st.Frames) == 0) {
 		e.modularCall(st, fn, ct, args, pos, k)
 		return
 	}
@@ -547,6 +548,12 @@ func (e *Engine) viewWriteBack(st *State, d Val) {
 		return
 	}
 	tok := e.tb.Fresh("arrtok", SInt)
+	if at, ok := vo.T.Underlying().(*types.Array); ok && len(Leaves(at.Elem())) == 1 && Leaves(at.Elem())[0].Sort == SInt {
+		// the new token is the one determined by the array's elements after the write (pack is a function of the content)
+		cl := e.elemClass(at.Elem(), "", Leaves(at.Elem())[0])
+		row := e.tb.Select(e.H(st, cl, SArr2I), d.slArr())
+		tok = e.tb.App("pack_"+typeKey(vo.T), SInt, row, e.tb.Int(0), e.tb.Int(vo.N))
+	}
 	px := vo.px
 	e.storePx(st, &px, vo.T, Val{T: []*Term{tok}})
 }
